@@ -284,6 +284,61 @@ func registerIntrinsics(e *Engine) {
 		return strings.Count(mustStr(a[0], "Count"), mustStr(a[1], "Count"))
 	}
 
+	// ---------------- strings.Builder (modelled over its buf field) ----------------
+	sbBuf := func(a []value) *value {
+		st := (*a[0].(*value)).(structure)
+		return &st[len(st)-1]
+	}
+	sbAppend := func(fr *frame, a []value, ts []*smt.Term) {
+		bp := sbBuf(a)
+		buf, _ := (*bp).([]value)
+		for _, t := range ts {
+			if t.IsConst() {
+				buf = append(buf, uint8(t.Val))
+			} else {
+				buf = append(buf, sym{t: t, k: types.Uint8, ps: fr.i.ps})
+			}
+		}
+		*bp = buf
+	}
+	in["(*strings.Builder).WriteString"] = func(fr *frame, a []value) value {
+		ts := strTerms(a[1])
+		sbAppend(fr, a, ts)
+		return tuple{len(ts), iface{}}
+	}
+	in["(*strings.Builder).WriteByte"] = func(fr *frame, a []value) value {
+		sbAppend(fr, a, []*smt.Term{termOf(a[1])})
+		return iface{}
+	}
+	in["(*strings.Builder).WriteRune"] = func(fr *frame, a []value) value {
+		switch r := a[1].(type) {
+		case int32:
+			sbAppend(fr, a, strTerms(string(r)))
+			return tuple{len(string(r)), iface{}}
+		case sym:
+			if !r.ps.decide(smt.BvCmp(smt.OpBvUlt, r.t, smt.BV(0x80, 32))) {
+				panic(unsupported{"WriteRune of non-ASCII symbolic rune"})
+			}
+			sbAppend(fr, a, []*smt.Term{smt.Extract(r.t, 7, 0)})
+			return tuple{1, iface{}}
+		}
+		panic(unsupported{"WriteRune"})
+	}
+	in["(*strings.Builder).String"] = func(fr *frame, a []value) value {
+		buf, _ := (*sbBuf(a)).([]value)
+		ts := make([]*smt.Term, len(buf))
+		for k, b := range buf {
+			ts[k] = termOf(b)
+		}
+		return normStr(fr.i.ps, ts)
+	}
+	in["(*strings.Builder).Len"] = func(fr *frame, a []value) value {
+		buf, _ := (*sbBuf(a)).([]value)
+		return len(buf)
+	}
+	in["(*strings.Builder).Grow"] = func(fr *frame, a []value) value { return nil }
+	in["(*strings.Builder).Reset"] = func(fr *frame, a []value) value { *sbBuf(a) = []value(nil); return nil }
+
 	// ---------------- strconv ----------------
 	in["strconv.Itoa"] = func(fr *frame, a []value) value { return strconv.Itoa(int(asInt64(a[0]))) }
 	in["strconv.Atoi"] = func(fr *frame, a []value) value {
